@@ -133,7 +133,7 @@ CHECK = {
     "props": "Props/C25.v",
     "theorems": ["c25_stack_eq_expand", "c25_terminates", "c25_depth", "c25_context_scoping",
                  "c25_iter_stack_eq_expand", "c25_iter_depth", "c25_lines_are_iter", "c25_full_stack_eq_expand", "c25_full_total_valid",
-                 "c25_full_include_boundary"],
+                 "c25_full_include_boundary", "c25_full_include_directory"],
     "allowed_axioms": [],
     "suites": [{
         "name": "zoneinc",
